@@ -123,6 +123,11 @@ pub struct Ctl {
     /// or a continuation of such a transfer) — used by C11's non-triviality rule
     pub big_partial: u64,
     pub big_interrupts: u64,
+    /// chunk storage and merge function use grenad themselves inside every call (re-entrancy)
+    pub reentrant: bool,
+    /// chunk storage only exposes written bytes to reads after `flush` (like a buffered file)
+    pub staging: bool,
+    pub reentrant_uses: u64,
 }
 
 pub type Shared = Rc<RefCell<Ctl>>;
@@ -394,6 +399,18 @@ fn inner_files() -> &'static Vec<Vec<u8>> {
     })
 }
 
+/// one small use of grenad itself (a lookup in an in-memory file; the six codecs in turn)
+pub fn reenter(n: u64) -> io::Result<()> {
+    let f = &inner_files()[(n % 6) as usize];
+    let r = grenad::Reader::new(io::Cursor::new(f.as_slice())).map_err(|e| io::Error::new(io::ErrorKind::Other, format!("inner grenad use failed: {e}")))?;
+    let mut c = r.into_cursor().map_err(|e| io::Error::new(io::ErrorKind::Other, format!("inner grenad use failed: {e}")))?;
+    let probe = [b'i', (n % 40) as u8];
+    match c.move_on_key_greater_than_or_equal_to(probe) {
+        Ok(Some((k, _))) if k == probe => Ok(()),
+        other => Err(io::Error::new(io::ErrorKind::Other, format!("inner grenad use gave a wrong answer: {:?}", other.map(|o| o.map(|(k, _)| k.to_vec()))))),
+    }
+}
+
 impl ReentrantSource {
     pub fn new(data: Rc<Vec<u8>>) -> ReentrantSource {
         ReentrantSource { data, pos: 0, calls: Rc::new(std::cell::Cell::new(0)) }
@@ -402,6 +419,8 @@ impl ReentrantSource {
     fn reenter(&self) -> io::Result<()> {
         let n = self.calls.get();
         self.calls.set(n + 1);
+        return reenter(n);
+        #[allow(unreachable_code)]
         let f = &inner_files()[(n % 6) as usize];
         let r = grenad::Reader::new(io::Cursor::new(f.as_slice())).map_err(|e| io::Error::new(io::ErrorKind::Other, format!("inner grenad use failed: {e}")))?;
         let mut c = r.into_cursor().map_err(|e| io::Error::new(io::ErrorKind::Other, format!("inner grenad use failed: {e}")))?;
@@ -439,6 +458,8 @@ impl Seek for ReentrantSource {
 
 pub struct Chunk {
     pub data: Vec<u8>,
+    /// bytes written but not yet flushed (staging mode)
+    pub staged: Vec<u8>,
     pub pos: u64,
     pub ctl: Shared,
 }
@@ -464,6 +485,22 @@ impl Write for Chunk {
         match c.step(buf.len()) {
             Step::Interrupted => Err(io::Error::new(io::ErrorKind::Interrupted, "verif-interrupted")),
             Step::Transfer(n) => {
+                if c.reentrant {
+                    c.reentrant_uses += 1;
+                    let k = c.reentrant_uses;
+                    if k % 5 == 0 {
+                        drop(c);
+                        reenter(k / 5)?;
+                        c = self.ctl.borrow_mut();
+                    }
+                }
+                // staging mode: sequential appends are held back until flush
+                if c.staging && self.pos as usize == self.data.len() + self.staged.len() {
+                    self.staged.extend_from_slice(&buf[..n]);
+                    self.pos += n as u64;
+                    c.chunk_bytes_written += n as u64;
+                    return Ok(n);
+                }
                 let p = self.pos as usize;
                 if p > self.data.len() {
                     self.data.resize(p, 0);
@@ -483,6 +520,8 @@ impl Write for Chunk {
         if let Some(e) = c.enter(Kind::Flush) {
             return Err(injected(e));
         }
+        let mut st = std::mem::take(&mut self.staged);
+        self.data.append(&mut st);
         Ok(())
     }
 }
@@ -501,6 +540,14 @@ impl Read for Chunk {
         match c.step(want) {
             Step::Interrupted => Err(io::Error::new(io::ErrorKind::Interrupted, "verif-interrupted")),
             Step::Transfer(n) => {
+                if c.reentrant {
+                    c.reentrant_uses += 1;
+                    let k = c.reentrant_uses;
+                    drop(c);
+                    if k % 5 == 0 {
+                        reenter(k / 5)?;
+                    }
+                }
                 buf[..n].copy_from_slice(&self.data[start..start + n]);
                 self.pos += n as u64;
                 Ok(n)
@@ -538,6 +585,6 @@ impl grenad::ChunkCreator for Creator {
         c.created += 1;
         c.live_chunks += 1;
         c.max_live_chunks = c.max_live_chunks.max(c.live_chunks);
-        Ok(Chunk { data: Vec::new(), pos: 0, ctl: self.ctl.clone() })
+        Ok(Chunk { data: Vec::new(), staged: Vec::new(), pos: 0, ctl: self.ctl.clone() })
     }
 }
